@@ -57,9 +57,17 @@ Four kinds of case (plain JSON):
 "value" = the raw deb822 form of a free-text field: a stripped first line (may be empty) and
 continuation lines that start with a blank or tab and contain a visible character.
 License text = lines joined with newlines; a line is empty or contains a visible character and is
-not a lone '.' (the property's own precondition).  Characters: printable Unicode and TAB.
+not a lone '.' (the property's own precondition).  Characters: printable Unicode and TAB -
+including valid text that is in no Unicode normalisation form (a letter followed by a combining
+mark, ANGSTROM SIGN / OHM SIGN, conjoining Hangul jamo, precomposed and compatibility characters)
+in every text-bearing place (copyright, license synopsis and text, comments, header fields, list
+items, patterns, X- fields): the values read back must equal the given ones character for character.
+A pattern is any run of visible characters (commas, semicolons, colons, quotes, brackets, ...: the
+space-separated Files field gives a meaning to white space only); the lists read from the built, the
+parsed and the re-parsed paragraph are compared with the list that was GIVEN.
 """
 import io
+import unicodedata
 
 from hypothesis import strategies as st
 
@@ -85,7 +93,11 @@ RULE = ("cases are copyright documents (optional header fields incl. 1..3-elemen
         "lists parse_multiline_as_lines handed out and asking the decoders / getters again. "
         "License text lines "
         "are drawn from classes: empty, plain, indented, trailing blanks, leading '.', leading "
-        "'#', field-/PGP-lookalikes, non-ASCII. Non-trivial = a document with a license text "
+        "'#', field-/PGP-lookalikes, non-ASCII. The word/character alphabet of all texts holds "
+        "non-normalised Unicode (letter + combining mark, U+212B, U+2126, Hangul jamo, precomposed "
+        "and compatibility characters); patterns are drawn from an alphabet with comma, semicolon, "
+        "colon, quotes, brackets and the other ASCII punctuation, and from glob + punctuation + "
+        "suffix combinations. Non-trivial = a document with a license text "
         "holding both an empty and an indented line, or with paragraphs of both kinds (parsed "
         "documents: a License paragraph standing before a Files paragraph); a codec "
         "case with an empty line after the first and an indented or dot-led line; a list case "
@@ -105,6 +117,11 @@ ASSUMPTIONS = [
     "include the set of field names (case-insensitive) and the raw values of these extra fields",
     "a list returned by parse_multiline_as_lines belongs to the caller: editing it must not "
     "change what a later decode of the same text or a property getter returns",
+    "text is compared by code point: canonically equivalent but differently encoded strings are "
+    "different values (the statement says 'the same ... text' and 'identical text'; the library "
+    "documents no normalisation)",
+    "in a space-separated list only white space separates: every other visible character, "
+    "punctuation included, is part of the pattern (_SpaceSeparated docstring; copyright-format 1.0)",
     "characters are limited to str.isprintable() plus TAB (DESIGN section 6: characters on which "
     "str.splitlines splits but '\\n'-based file iteration does not are outside the domain)",
     "texts are compared as newline-joined lines: one trailing newline of a license text and "
@@ -419,10 +436,22 @@ def check_doc(case):
         if order != list(range(len(paras))):
             labels.add("files-paragraph-added-after-license-paragraph")
     rich = content_labels(paras, h, labels)
-    if any(ord(ch) > 127 for ch in text):
-        labels.add("non-ascii")
+    unicode_labels(text, labels)
     nontrivial = rich or ("F" in kinds and "L" in kinds)
     return (nontrivial, sorted(labels))
+
+
+def unicode_labels(text, labels):
+    """Which kinds of non-ASCII text the dumped document holds (unicodedata is used for the labels
+    only: the oracle compares what comes back with what was given, character for character)."""
+    if any(ord(ch) > 127 for ch in text):
+        labels.add("non-ascii")
+        for form in ("NFC", "NFD", "NFKC"):
+            if unicodedata.normalize(form, text) != text:
+                labels.add("non-ascii:text-not-in-" + form)
+
+
+PUNCT = set(",;:'\"[]{}()<>!#$%&=@^`|~")
 
 
 def content_labels(paras, h, labels):
@@ -451,6 +480,13 @@ def content_labels(paras, h, labels):
                 labels.add("files:list-longer-than-72-chars")
             if any(len(x) > 72 for x in p[1]):
                 labels.add("files:pattern-longer-than-72-chars")
+            for x in p[1]:
+                if "," in x:
+                    labels.add("files:pattern-with-comma")
+                if PUNCT.intersection(x) - set(","):
+                    labels.add("files:pattern-with-other-punctuation")
+                if any(ord(ch) > 127 for ch in x):
+                    labels.add("files:pattern-non-ascii")
             if "\n" in p[2]:
                 labels.add("copyright:multi-line")
             if p[2].startswith("\n"):
@@ -643,8 +679,7 @@ def check_parsed(case):
     elif order != list(range(len(allp))):
         labels.add("parsed-doc:files-paragraph-inserted-before-parsed-license-paragraph")
     rich = content_labels(allp, h, labels)
-    if any(ord(ch) > 127 for ch in text):
-        labels.add("non-ascii")
+    unicode_labels(text, labels)
     return (interleaved or rich, sorted(labels))
 
 
@@ -927,6 +962,8 @@ def check_list(case):
         raise Violation("list:readback-differs" if representable else "list:unrepresentable-item-stored",
                         "%s = %r reads back as %r" % (attr, items, got))
     labels.add("list:accepted")
+    if field == "files" and any(PUNCT.intersection(e) for e in items):
+        labels.add("list:pattern-with-punctuation")
     if any(e != e.strip() for e in items):
         labels.add("list:items-with-surrounding-blanks")
     text = doc.dump()
@@ -964,9 +1001,17 @@ def check(case):
 # ------------------------------------------------------------------------------------------
 # generators
 
-VIS = "abz019.,:;#-*?()<>@/\\+=|&'\"_é漢𝒳ß"        # visible characters
-VOCAB = ["Copyright", "2014", "Some", "Guy", "GPL", "(c)", "foo.c", "<a@b.org>", "x:", "#1", ".", "-",
-         "é漢", "𝒳", "ß", "a", "the", "*", "\\", "1.0,", "and/or", "\"q\"", "--", ".."]
+# Valid text that is NOT in a Unicode normalisation form: a letter followed by a combining mark
+# (not NFC), singletons that every form replaces (ANGSTROM SIGN, OHM SIGN), conjoining Hangul jamo
+# (not NFC), precomposed letters and syllables (not NFD), compatibility characters (not NFKC/NFKD).
+# All of it is printable, none of it is white space: the property promises it back unchanged.
+UNNORMALISED = ["e\u0301", "\u212b", "\u2126", "\u1112\u1161\u11ab", "A\u030a", "o\u0308\u0323", "\ufb01",
+                "\u00b2", "\ud55c", "\u1e69", "\uff21", "\u0301"]
+VIS = ("\u212b\u0301abz019.,:;#-*?()<>@/\\+=|&'\"_é漢𝒳ß[]{}!$%^~`"
+       "\u0308\u1112\u1161\u11ab\ufb01\u2126")        # visible characters
+VOCAB = ["e\u0301", "\u212b", "Copyright", "2014", "Some", "Guy", "GPL", "(c)", "foo.c", "<a@b.org>", "x:", "#1",
+         ".", "-", "é漢", "𝒳", "ß", "a", "the", "*", "\\", "1.0,", "and/or", "\"q\"", "--", "..",
+         "\u1112\u1161\u11ab", "A\u030a", "\ufb01\u00b2", "\ud55c", "Jos\u0065\u0301", "\u2126"]
 vis = st.one_of(st.sampled_from(VOCAB), st.sampled_from(VOCAB),
                 st.text(alphabet=st.sampled_from(VIS), min_size=1, max_size=4))
 gap = st.sampled_from([" ", " ", "  ", "\t", " \t"])
@@ -1031,9 +1076,15 @@ def gen_value(draw, maxcont=2):
     return "\n".join([first] + conts)
 
 
-PATS = "ab/.*?\\+é"
+# A pattern is any run of visible characters: the space-separated Files field treats nothing but
+# white space specially, so commas, semicolons, colons, quotes, brackets ... belong to the glob.
+PATS = ",ab/.*?\\+é;:'\"[]{}()<>!#$%&=@^_`|~-\u212b\u0301\u1112\u1161;,"
 pattern = st.one_of(st.sampled_from(["*", "debian/*", "src/*.c", "a?b", "\\*", "*.in", "Makefile"]),
-                    st.text(alphabet=st.sampled_from(PATS), min_size=1, max_size=5))
+                    st.text(alphabet=st.sampled_from(PATS), min_size=1, max_size=5),
+                    st.text(alphabet=st.sampled_from(PATS), min_size=1, max_size=5),
+                    st.builds(lambda a, p, b: a + p + b, st.sampled_from(["*", "a", "src/", "x."]),
+                              st.sampled_from(list(",;:'\"[]{}()!#$%&=@^`|~") + UNNORMALISED),
+                              st.sampled_from(["v", "*", "b.txt", ""])))
 item = st.one_of(core, st.sampled_from(["A <a@b>", "http://x/y z", ".", "#x", "é 漢", "a\tb"]))
 
 
